@@ -5,15 +5,36 @@ End-to-end on the real code: `TransmissionGenerator.generate_full_data_transmiss
 as stated.  The correspondence compares the Lean model of the generator (`frag.full`: the abstract bursts it
 generates vs. the abstraction of the parsed real bursts; `frag.count`: block / pad arithmetic) and the model of
 the receiver (the C08 tracker, same driver) with the real code.
+
+Hardening (rounds 2/3): besides lengths x rates x modes x preambles the payload CONTENT is structured:
+* self-referential payloads — the octets before a block end / the payload end are a checksum of the octets
+  before them (library CRC-32 as sent on air and an independent implementation, other octet orders, CRC-16,
+  CRC-9-like fields), at one boundary, at all boundaries, shifted by one octet;
+* payloads produced by the library itself — the data + CRC-32 a previous transmission DELIVERED, serialised
+  headers / preambles / data blocks / whole bursts, re-sent in the same and in other rates / modes;
+* payloads constructed so that a checksum hits a sentinel (CRC-32 = 0 / 0xFFFFFFFF / own first octets, CRC-9 = 0);
+* error-path probes (failing generator / receiver calls first) and ambient variants (root logger at DEBUG,
+  failing sys.stdout, reseeded `random`, a child `python -O`).
 """
+import binascii
+import contextlib
+import errno
+import io
 import json
+import logging
+import os
+import random as _random
+import subprocess
+import sys
+import tempfile
+import zlib
 from math import ceil
 
 from common import impl_error
 from props import c08
 
 PROP = "C07"
-MODULES = ["C07"]
+MODULES = ["C07", "C07a"]
 GEN = ["Tracker", "Fragment"]
 MATCHERS = {}
 
@@ -37,6 +58,279 @@ def int_blocks(per, last, n):
     return 1 if n <= last else 1 + (n - last + per - 1) // per
 
 
+# ------------------------------------------------------------------------------------------------
+# independent checksums (ETSI TS 102 361-1 B.3.9 / B.3.10 / B.3.8 restated; nothing of the library is used)
+# ------------------------------------------------------------------------------------------------
+CRC9_MASK = {"r12": 0x0F0, "r34": 0x1FF, "r1": 0x10F}  # table B.21: rate 1/2, 3/4, 1 data continuation
+_T32 = []
+
+
+def _table32():
+    if not _T32:
+        for i in range(256):
+            reg = i << 24
+            for _ in range(8):
+                reg = ((reg << 1) ^ 0x04C11DB7) & 0xFFFFFFFF if reg & 0x80000000 else (reg << 1)
+            _T32.append(reg)
+    return _T32
+
+
+def ref_crc32(data: bytes, swap: bool = True) -> int:
+    """remainder of data(x)·x^32 by the CRC-32 polynomial, MSB first, register 0, no final xor; `swap`: over the
+    pairwise swapped octets (a trailing odd octet stays) — the value of `CRC32.calculate`"""
+    d = bytearray(data)
+    if swap:
+        m = len(d) & ~1
+        d[0:m:2], d[1:m:2] = d[1:m:2], d[0:m:2]
+    t = _table32()
+    reg = 0
+    for byte in d:
+        reg = ((reg << 8) & 0xFFFFFFFF) ^ t[(reg >> 24) ^ byte]
+    return reg
+
+
+def ref_crc9(data: bytes, dbsn: int, mask: int, crc32=None) -> int:
+    """inverted remainder by x^9+x^6+x^4+x^3+1 of (data | CRC-32 field if it is not 0 | 7-bit serial number), xor mask"""
+    v, n = int.from_bytes(data, "big"), 8 * len(data)
+    if crc32:
+        v, n = (v << 32) | crc32, n + 32
+    v, n = (v << 7) | dbsn, n + 7
+    v <<= 9
+    for i in range(n + 8, 8, -1):
+        if (v >> i) & 1:
+            v ^= 0x259 << (i - 9)
+    return (v & 0x1FF) ^ 0x1FF ^ mask
+
+
+def swap16(b: bytes) -> bytes:
+    d = bytearray(b)
+    m = len(d) & ~1
+    d[0:m:2], d[1:m:2] = d[1:m:2], d[0:m:2]
+    return bytes(d)
+
+
+def bitrev32(v: int) -> int:
+    return int(f"{v:032b}"[::-1], 2)
+
+
+def rbytes(rng, n):
+    return bytes(rng.getrandbits(8) for _ in range(n))
+
+
+PRIMARY = ("lib32-onair", "ref32-onair")
+
+
+def conventions(rate):
+    """name -> (octets, fn(prefix, octets of the current block before the field) -> field): the checksum
+    conventions a payload can carry about its own head.  `lib32-onair` is the library's CRC-32 in the octet order
+    the generator puts into the last block; `ref32-onair` the same from the independent implementation."""
+    l = L()
+    lib32 = l.CRC32.calculate
+    try:
+        from okdmr.dmrlib.etsi.crc.crc16 import CRC16
+
+        def lib16(p, m):
+            return CRC16.calculate(p, m) & 0xFFFF
+    except BaseException:  # noqa: the independent CRC-CCITT below stands in
+        def lib16(p, m):
+            return binascii.crc_hqx(p, 0) ^ 0xFFFF ^ m.value
+    mask9 = CRC9_MASK[rate]
+
+    def le(v):
+        return (v & 0xFFFFFFFF).to_bytes(4, "little")
+
+    def be(v):
+        return (v & 0xFFFFFFFF).to_bytes(4, "big")
+
+    def field9(data, dbsn):
+        return ((dbsn << 9) | ref_crc9(data, dbsn, mask9)).to_bytes(2, "big")
+
+    return {
+        "lib32-onair": (4, lambda p, b: le(lib32(p))),
+        "ref32-onair": (4, lambda p, b: le(ref_crc32(p))),
+        "lib32-be": (4, lambda p, b: be(lib32(p))),
+        "lib32-swap16": (4, lambda p, b: swap16(le(lib32(p)))),
+        "lib32-wordswap": (4, lambda p, b: le(lib32(p))[2:] + le(lib32(p))[:2]),
+        "lib32-inverted": (4, lambda p, b: le(lib32(p) ^ 0xFFFFFFFF)),
+        "lib32-bitrev": (4, lambda p, b: be(bitrev32(lib32(p)))),
+        "lib32-of-block": (4, lambda p, b: le(lib32(b))),
+        "plain32-be": (4, lambda p, b: be(ref_crc32(p, swap=False))),  # codeword convention: CRC of the whole is 0
+        "plain32-le": (4, lambda p, b: le(ref_crc32(p, swap=False))),
+        "zlib32-le": (4, lambda p, b: le(zlib.crc32(p))),
+        "zlib32-be": (4, lambda p, b: be(zlib.crc32(p))),
+        "lib32-skip1": (4, lambda p, b: le(lib32(p[1:]))),  # near miss: CRC of the head without its first octet
+        "lib32-bitflip": (4, lambda p, b: le(lib32(p) ^ 1)),  # near miss: one bit off
+        "crc16-header-be": (2, lambda p, b: lib16(p, l.CrcMasks.DataHeader).to_bytes(2, "big")),
+        "crc16-csbk-be": (2, lambda p, b: lib16(p, l.CrcMasks.CSBK).to_bytes(2, "big")),
+        "crc16-plain-be": (2, lambda p, b: binascii.crc_hqx(p, 0).to_bytes(2, "big")),
+        "crc16-plain-le": (2, lambda p, b: binascii.crc_hqx(p, 0).to_bytes(2, "little")),
+        "crc16-of-block-be": (2, lambda p, b: lib16(b, l.CrcMasks.DataHeader).to_bytes(2, "big")),
+        "crc9-of-block": (2, lambda p, b: field9(b, 0)),  # serial number 0 + CRC-9 of the block's octets, as a confirmed block starts
+        "crc9-of-head": (2, lambda p, b: field9(p, len(p) & 0x7F)),
+    }
+
+
+def selfref_payload(rng, n, per, sites, fn, width, shift=0):
+    """n random octets in which, for every b in `sites` (ascending), the octets [b + shift - width, b + shift)
+    are fn(all octets before them, the octets of their block before them)"""
+    buf = bytearray(rbytes(rng, n))
+    done = []
+    for b in sorted(sites):
+        e = b + shift
+        s = e - width
+        if s < 0 or e > n:
+            continue
+        buf[s:e] = fn(bytes(buf[:s]), bytes(buf[(s // per) * per:s]))
+        done.append(b)
+    return bytes(buf), done
+
+
+def ipv4_udp(rng, total, claimed=None, sport=4007, dport=4007):
+    """`total` octets that start with a well-formed IPv4 + UDP header (header checksum correct) whose total-length /
+    UDP-length fields announce `claimed` octets (default: the truth) — the usual content of a SAP 4 packet"""
+    claimed = total if claimed is None else claimed
+    hdr = bytearray([0x45, 0, (claimed >> 8) & 0xFF, claimed & 0xFF, rng.getrandbits(8), rng.getrandbits(8), 0, 0, 64, 17, 0, 0,
+                     10, rng.getrandbits(8), rng.getrandbits(8), 1, 10, rng.getrandbits(8), rng.getrandbits(8), 2])
+    acc = sum(int.from_bytes(hdr[i:i + 2], "big") for i in range(0, 20, 2))
+    while acc >> 16:
+        acc = (acc & 0xFFFF) + (acc >> 16)
+    hdr[10:12] = (acc ^ 0xFFFF).to_bytes(2, "big")
+    ulen = max(8, claimed - 20) & 0xFFFF
+    udp = sport.to_bytes(2, "big") + dport.to_bytes(2, "big") + ulen.to_bytes(2, "big") + b"\x00\x00"
+    pkt = bytes(hdr) + udp
+    return (pkt + rbytes(rng, max(0, total - len(pkt))))[:total]
+
+
+def solve_tail32(head: bytes, tail: bytes, target: int):
+    """4 octets x with ref_crc32(head + x + tail) = target: the CRC is linear (register 0, no final xor), Gaussian
+    elimination over GF(2) on the 32 unit vectors; None when the 32 positions are dependent (they are when the four
+    octets start at an odd offset and something follows: the pairwise swap spreads them over three pairs)"""
+    zero, ztail = bytes(len(head)), bytes(len(tail))
+    want = target ^ ref_crc32(head + bytes(4) + tail)
+    rows = []  # (image, x)
+    for j in range(32):
+        x = 1 << j
+        rows.append([ref_crc32(zero + x.to_bytes(4, "big") + ztail), x])
+    sol = 0
+    for bit in range(31, -1, -1):
+        piv = next((r for r in rows if (r[0] >> bit) & 1), None)
+        if piv is None:
+            return None
+        rows.remove(piv)
+        for r in rows:
+            if (r[0] >> bit) & 1:
+                r[0] ^= piv[0]
+                r[1] ^= piv[1]
+        if (want >> bit) & 1:
+            want ^= piv[0]
+            sol ^= piv[1]
+    return sol.to_bytes(4, "big") if want == 0 else None
+
+
+def crc9_target_payload(rng, rate, nblocks, which, target):
+    """confirmed payload of `nblocks` blocks (no pad) whose block `which` gets the CRC-9 `target` from the
+    generator (serial number 0; the last block's CRC-9 also covers the CRC-32 of the whole padded payload)"""
+    per, last = TABLE[(rate, True)]
+    n = (nblocks - 1) * per + last
+    buf = bytearray(rbytes(rng, n))
+    lo, hi = which * per, min(n, which * per + per)
+    for v in range(1 << 16):
+        buf[hi - 2:hi] = ((v * 40503 + 7) & 0xFFFF).to_bytes(2, "big")
+        c32 = None
+        if which == nblocks - 1:
+            c32 = int.from_bytes(ref_crc32(bytes(buf)).to_bytes(4, "little"), "big")
+        if ref_crc9(bytes(buf[lo:hi]), 0, CRC9_MASK[rate], c32) == target:
+            return bytes(buf)
+    return None
+
+
+# ------------------------------------------------------------------------------------------------
+# ambient interpreter state (round 3 (g)); the property's receiver path must not fail under any of them
+# ------------------------------------------------------------------------------------------------
+class FailingWriter:
+    """a sys.stdout whose every operation fails (closed pipe / closed file)"""
+
+    encoding = "utf-8"
+
+    def __init__(self, exc):
+        self.exc = exc
+
+    def write(self, s):
+        raise self.exc
+
+    def flush(self):
+        raise self.exc
+
+    def isatty(self):
+        return False
+
+
+AMBIENTS = ("debug", "stdout-epipe", "stdout-closed", "reseed", "all")
+
+
+@contextlib.contextmanager
+def ambient(counter, mode):
+    """`c08.quiet` (deterministic stream numbers, nothing on the real stdout / stderr) plus one disturbance:
+    debug = nothing disabled, root logger at DEBUG with a handler that formats every record;
+    stdout-* = sys.stdout raises on write; reseed = the global `random` is reseeded (by the caller, per burst)"""
+    if not mode or mode == "python-O":
+        with c08.quiet(counter):
+            yield
+        return
+    l = L()
+    old_tb = l.secrets.token_bytes
+    l.secrets.token_bytes = counter
+    root = logging.getLogger()
+    prev_disable, prev_level, prev_handlers = root.manager.disable, root.level, root.handlers[:]
+    old_stdout, rnd_state = sys.stdout, _random.getstate()
+    try:
+        if mode in ("debug", "all"):
+            logging.disable(logging.NOTSET)
+            root.setLevel(logging.DEBUG)
+            h = logging.StreamHandler(io.StringIO())
+            h.setLevel(logging.DEBUG)
+            h.setFormatter(logging.Formatter("%(asctime)s %(name)s %(levelname)s %(message)s"))
+            root.handlers[:] = [h]
+        else:
+            logging.disable(logging.CRITICAL)
+        if mode == "stdout-closed":
+            sys.stdout = FailingWriter(ValueError("I/O operation on closed file."))
+        elif mode in ("stdout-epipe", "all"):
+            sys.stdout = FailingWriter(BrokenPipeError(errno.EPIPE, "Broken pipe"))
+        else:
+            sys.stdout = io.StringIO()
+        yield
+    finally:
+        sys.stdout = old_stdout
+        root.handlers[:] = prev_handlers
+        root.setLevel(prev_level)
+        logging.disable(prev_disable)
+        _random.setstate(rnd_state)
+        l.secrets.token_bytes = old_tb
+
+
+def provoke_generator(l, cls, payload, cc, confirmed, case):
+    """error-path state: calls that fail (wrong class / type / header) before the valid one; whatever they do,
+    the valid call afterwards must behave as always"""
+    g = l.TransmissionGenerator
+    bad_calls = [
+        lambda: g.generate_data_bursts(int, payload, cc, confirmed),
+        lambda: g.generate_data_bursts(cls, payload.hex(), cc, confirmed),
+        lambda: g.generate_data_bursts(cls, None, cc, confirmed),
+        lambda: make_header(confirmed, 0, 128, case["sap"], case["dst"], case["src"]),
+        # a header that announces other pad octets / blocks than the generator computes: AssertionError (nothing under -O)
+        lambda: g.generate_full_data_transmission(cls, payload + b"\x01" * 5, make_header(confirmed, 31, 1, 4, 1, 2), csbk_count=2, colour_code=cc),
+        lambda: g.generate_full_data_transmission(cls, payload, None, csbk_count=1, colour_code=cc),
+    ]
+    n = 0
+    for bad in bad_calls:
+        try:
+            bad()
+        except BaseException:  # noqa
+            n += 1
+    return n
+
+
 def make_header(confirmed, poc, nblocks, sap, dst, src):
     l = L()
     return l.DataHeader(
@@ -47,7 +341,7 @@ def make_header(confirmed, poc, nblocks, sap, dst, src):
 
 
 def run_case(case):
-    """case = dict(rate, confirmed, k, cc, payload hex, sap, dst, src, slot, raises).
+    """case = dict(rate, confirmed, k, cc, payload hex, sap, dst, src, slot, raises[, ambient, provoke, defaults, header_from_bits, want_rx]).
     Returns (model lines, implementation outputs, oracle failures, info)."""
     l = L()
     rate, confirmed, k, cc = case["rate"], case["confirmed"], case["k"], case["cc"]
@@ -61,7 +355,13 @@ def run_case(case):
         fails.append((kind, what, exp, act))
 
     counter = c08.Counter()
-    with c08.quiet(counter):
+    amb = case.get("ambient")
+    reseed = amb in ("reseed", "all")
+    with ambient(counter, amb):
+        if case.get("provoke"):
+            info["provoked"] = provoke_generator(l, cls, payload, cc, confirmed, case)
+        if reseed:
+            _random.seed(0xC07)
         # ---- the generator: pad count and number of blocks as the library computes them
         try:
             data_bursts, poc = l.TransmissionGenerator.generate_data_bursts(cls, payload, cc, confirmed)
@@ -92,8 +392,21 @@ def run_case(case):
         if nblocks > 127:
             fail("overlong-accepted", "a header announcing more than 127 blocks was built", "OverflowError", "header")
             return lines, outs, fails, info
+        if case.get("header_from_bits"):
+            # argument provenance: the caller's header is one the library parsed (e.g. taken over from a received packet)
+            try:
+                header = l.DataHeader.from_bits(header.as_bits())
+            except BaseException as e:  # noqa
+                fail("header-raises", f"DataHeader.from_bits(header.as_bits()) raised {impl_error(e)}", "header", impl_error(e))
+                return lines, outs, fails, info
         try:
-            bursts = l.TransmissionGenerator.generate_full_data_transmission(cls, payload, header, csbk_count=k, colour_code=cc)
+            if reseed:
+                _random.seed(0xC07)
+            if case.get("defaults") and k == 3 and cc == 1:
+                # the documented defaults (3 preambles, colour code 1) left to the callee
+                bursts = l.TransmissionGenerator.generate_full_data_transmission(packet_type=cls, userdata=payload, data_header=header)
+            else:
+                bursts = l.TransmissionGenerator.generate_full_data_transmission(cls, payload, header, csbk_count=k, colour_code=cc)
             wire = [b.as_bytes() for b in bursts]
         except BaseException as e:  # noqa
             fail("generator-raises", f"generate_full_data_transmission / as_bytes raised {impl_error(e)}: {str(e)[:100]}", "bursts", impl_error(e))
@@ -124,7 +437,16 @@ def run_case(case):
         lines.append("t.init " + "".join("1" if r else "0" for r in case["raises"]))
         outs.append("ok")
         slot = case["slot"]
+        if case.get("provoke"):
+            # failing receiver calls first (no burst, no such time slot): they must leave nothing behind
+            for bad in ((None, slot), (l.Burst.from_bytes(wire[-1]), 3), (wire[0], slot)):
+                try:
+                    term.process_incoming_burst(*bad)
+                except BaseException:  # noqa
+                    info["provoked"] = info.get("provoked", 0) + 1
         for i, w in enumerate(wire):
+            if reseed:
+                _random.seed(i)
             burst = l.Burst.from_bytes(w)
             before = [len(o.log) for o in observers]
             lines.append(f"t.burst {slot} {toks[i]}")
@@ -159,11 +481,18 @@ def run_case(case):
             want = payload + b"\x00" * hdr.pad_octet_count
             if data != want:
                 fail("payload", "received data blocks do not concatenate to payload + announced pad octets", want.hex()[:80], data.hex()[:80])
+            sizes = [len(b.data) for b in rblocks]
+            if sizes != [per] * (len(sizes) - 1) + [last] * min(1, len(sizes)):
+                fail("block-size", "data octets per received block are not the table's (per block, last block)", [per, last], sizes[:3] + sizes[-2:])
             if rblocks:
                 lastb = rblocks[-1]
                 calc = l.CRC32.calculate(data)
                 if lastb.crc32.to_bytes(4, "big") != calc.to_bytes(4, "little") or not l.CRC32.check(data, int.from_bytes(lastb.crc32.to_bytes(4, "big"), "little")):
                     fail("crc32", "trailing CRC-32 does not match the received data", calc.to_bytes(4, "little").hex(), lastb.crc32.to_bytes(4, "big").hex())
+                # the same against the payload that was handed in, with the independent CRC-32
+                indep = ref_crc32(want).to_bytes(4, "little")
+                if lastb.crc32.to_bytes(4, "big") != indep:
+                    fail("crc32", "trailing CRC-32 is not the (independently computed) CRC-32 of payload + announced pad octets", indep.hex(), lastb.crc32.to_bytes(4, "big").hex())
                 if not lastb.is_last_block() or any(b.is_last_block() for b in rblocks[:-1]):
                     fail("last-block", "last-block typing of the received blocks", "only the final block", [b.packet_type.name for b in rblocks][-3:])
             if confirmed:
@@ -177,8 +506,9 @@ def run_case(case):
                         # independently: the transmitted field is the CRC-9 over (data, serial number[, CRC-32 of the last block])
                         tx = gen_blocks[i].crc9 if i < len(gen_blocks) else None
                         ref = l.CRC9.calculate_from_parts(data=b.data, serial_number=b.dbsn, mask=mask, crc32=b.crc32 if i == len(rblocks) - 1 else None)
-                        if b.crc9 != ref or (tx not in (0, None) and tx != b.crc9):
-                            fail("crc9", f"CRC-9 field of confirmed block {i} is not the CRC-9 of its data and serial number", ref, [b.crc9, tx])
+                        indep9 = ref_crc9(b.data, b.dbsn, CRC9_MASK[rate], b.crc32 if i == len(rblocks) - 1 else None)
+                        if b.crc9 != ref or (tx not in (0, None) and tx != b.crc9) or b.crc9 != indep9:
+                            fail("crc9", f"CRC-9 field of confirmed block {i} is not the CRC-9 of its data and serial number", [ref, indep9], [b.crc9, tx])
             pre = blocks[: len(blocks) - len(rblocks) - 1]
             btfs = [b.blocks_to_follow for b in pre if isinstance(b, l.CSBK)]
             follow = len(wire) - k
@@ -188,14 +518,108 @@ def run_case(case):
                 fail("preambles", "bursts after the last preamble", 1 + nblocks, follow)
         if observers and len({tuple(o.log) for o in observers}) != 1:
             fail("observer-isolation", "observers received different events", observers[0].log[:2], observers[-1].log[:2])
+        if case.get("want_rx"):
+            # what the library itself produced / delivered: raw material for payloads of further transmissions
+            info["wire"] = [w.hex() for w in wire]
+            info["header"] = c08.pdu_hex(header)
+            info["csbk"] = [c08.pdu_hex(b.data) for b in bursts[:k]]
+            info["blocks_ser"] = [c08.pdu_hex(b) for b in gen_blocks]
+            ended = [e for o in observers for e in o.raw if e[0] == "E"]
+            if ended:
+                rb = [b for b in ended[0][3] if isinstance(b, (l.Rate12Data, l.Rate34Data, l.Rate1Data))]
+                info["rx_data"] = b"".join(b.data for b in rb).hex()
+                info["rx_crc"] = rb[-1].crc32.to_bytes(4, "big").hex() if rb else ""
         tx = term.timeslots[slot].transmission
         if (tx.type.name, tx.blocks_expected, tx.blocks_received, len(tx.blocks)) != ("Idle", 0, 0, 0):
             fail("not-idle", "tracker is not idle after the generated transmission", ["Idle", 0, 0, 0], [tx.type.name, tx.blocks_expected, tx.blocks_received, len(tx.blocks)])
     return lines, outs, fails, info
 
 
-def job_run(case):
-    return run_case(case)
+BIG_INFO = ("wire", "header", "csbk", "blocks_ser", "rx_data", "rx_crc")
+
+
+def slim(info):
+    return {k: v for k, v in info.items() if k not in BIG_INFO}
+
+
+def derived_cases(rng, base, info, depth=0):
+    """payloads made of what the library itself produced for / delivered from the transmission `base`:
+    argument provenance + correlation of the payload with checksums, headers and blocks (round 3 (a), (c))"""
+    rate, confirmed = base["rate"], base["confirmed"]
+    per, last = TABLE[(rate, confirmed)]
+    out = []
+
+    def add(kind, payload, rate2=rate, conf2=confirmed, k=None):
+        c = dict(base, payload=payload.hex(), rate=rate2, confirmed=conf2, k=rng.choice((0, 1, 2, 3)) if k is None else k,
+                 slot=1 + rng.randrange(2), sap=rng.choice((3, 4, 10)))
+        c.pop("want_rx", None)
+        out.append((f"derived:{kind}" + ("" if (rate2, conf2) == (rate, confirmed) else ":other-rate-mode"), c))
+
+    others = [(r, c) for r in RATES for c in (True, False) if (r, c) != (rate, confirmed)]
+    if info.get("rx_data") is not None and info.get("rx_crc"):
+        data, crc = bytes.fromhex(info["rx_data"]), bytes.fromhex(info["rx_crc"])
+        rx = data + crc  # exactly N blocks of `per` octets: the delivered data and the CRC-32 as it was sent
+        add("received-data+crc", rx, k=0)
+        add("received-data+crc", rx, k=rng.choice((1, 1, 2, 2, 3, 3, 3, 16)))
+        for t in sorted({1, per, rng.choice((4, last, per + 1, rng.randrange(1, 3 * per)))}):
+            add("received-data+crc+tail", rx + rbytes(rng, t))
+        if depth:
+            return out
+        add("received-data+crc twice", rx + rx)
+        add("received-data+crc+zeros", rx + bytes(rng.randrange(1, per + 1)))
+        for r2, c2 in rng.sample(others, 2):
+            add("received-data+crc", rx, r2, c2)
+        add("received-data (payload + pad zeros)", data)
+        add("received-crc only", crc)
+        add("head+received-crc (pad octets dropped)", bytes.fromhex(base["payload"]) + crc)
+        add("crc first, then data", crc + data)
+        if depth == 0:
+            # nested twice: what is delivered for `rx` as payload, again with its CRC-32, is a payload
+            out.append(("derive-again", dict(base, payload=rx.hex(), k=rng.choice((0, 2)))))
+    hdr = bytes.fromhex(info["header"]) if info.get("header") else b""
+    if hdr:
+        add("own header (12 octets, ends in its CRC-CCITT)", hdr)
+        add("own header + random", hdr + rbytes(rng, rng.randrange(1, 2 * per)))
+        add("random + own header at the end", rbytes(rng, rng.randrange(0, per)) + hdr)
+        add("own header", hdr, *rng.choice(others))
+        add("own header x3", hdr * 3, "r12", False)  # 12 octets: exactly one non-last unconfirmed rate 1/2 block each
+    for cs in (info.get("csbk") or [])[:1]:
+        add("own preamble CSBK + header + random", bytes.fromhex(cs) + hdr + rbytes(rng, per), "r12", False)
+    ser = [bytes.fromhex(x) for x in info.get("blocks_ser") or []]
+    if ser:
+        # a serialised block is 12 / 18 / 24 octets = exactly one unconfirmed block of the same rate: confirmed blocks
+        # (serial number, CRC-9, data[, CRC-32]) as the data of unconfirmed ones, and the other way round
+        add("own serialised blocks", b"".join(ser), rate, False)
+        add("own serialised blocks", b"".join(ser), rate, True)
+        add("own last serialised block (ends in the CRC-32) + random", ser[-1] + rbytes(rng, rng.randrange(0, per)), rate, not confirmed)
+    wire = [bytes.fromhex(x) for x in info.get("wire") or []]
+    if wire:
+        add("own header burst + first data burst (2 x 33 octets)", b"".join(wire[base["k"]:base["k"] + 2]), *rng.choice(others + [(rate, confirmed)]))
+        if len(wire) <= 5:
+            add("own whole transmission on the wire", b"".join(wire))
+    return out
+
+
+def job_run(job):
+    """one job in a worker: a plain case, or a base case plus the cases derived from what it delivered.
+    Returns [(desc, case, lines, outs, fails, info)]"""
+    if not job.get("derive"):
+        lines, outs, fails, info = run_case(job["case"])
+        return [(job["desc"], job["case"], lines, outs, fails, slim(info))]
+    rng = _random.Random(job["seed"])
+    res = []
+    todo = [(job["desc"], dict(job["case"], want_rx=True), 0)]
+    while todo:
+        desc, base, depth = todo.pop(0)
+        lines, outs, fails, info = run_case(base)
+        res.append((desc, base, lines, outs, fails, slim(info)))
+        for d, c in derived_cases(rng, base, info, depth):
+            if d == "derive-again":
+                todo.append(("derived:received-data+crc (base of the second level)", dict(c, want_rx=True), depth + 1))
+                continue
+            lines, outs, fails, info2 = run_case(c)
+            res.append((d + (":level2" if depth else ""), c, lines, outs, fails, slim(info2)))
+    return res
 
 
 def payload_of(rng, n, mode):
@@ -218,6 +642,225 @@ def make_case(rng, rate, confirmed, n, idx):
     }
 
 
+def small_case(rng, rate, confirmed, payload, idx, k=None):
+    """a case around a constructed payload: few preambles (cheap), at least one observer"""
+    c = make_case(rng, rate, confirmed, 0, idx)
+    c["payload"] = payload.hex()
+    c["k"] = (0, 1, 2, 3, 0, 1, 3, 2, 0, 1, 2, 3, 0, 16, 1, 2)[idx % 16] if k is None else k
+    c["raises"] = [[True, False], [False], [False, True]][idx % 3]
+    return c
+
+
+def structured_cases(ctx, rng):
+    """the payload-content classes: [(desc, case, count key)]"""
+    out = []
+    idx = 0
+    thorough = ctx.thorough()
+    blocks = (1, 2, 3, 4, 5, 6, 8, 12) if thorough else (1, 2, 3, 5)
+    turn = {}  # per kind of site: every sibling convention reaches every kind of site, in rotation over rates / modes / sizes
+    # sibling conventions per site next to the on-air one, taken in rotation; a fixed share, barely boosted
+    nsec = 6 if thorough else 1 if ctx.boost == 1 else 2
+    for rate in RATES:
+        for confirmed in (True, False):
+            per, last = TABLE[(rate, confirmed)]
+            convs = conventions(rate)
+            others = [n for n in convs if n != "lib32-onair"]  # the independent CRC-32 first, then the sibling conventions
+
+            def chosen(kind, m):
+                """the on-air convention always, and the next `m` of the others in this kind's rotation"""
+                t = turn.get(kind, 0)
+                turn[kind] = t + m
+                return ["lib32-onair"] + [others[(t + i) % len(others)] for i in range(min(m, len(others)))]
+
+            def add(kind, name, payload, sites, k=None):
+                nonlocal idx
+                if not sites:
+                    return
+                out.append((f"selfref:{kind}:{name}", small_case(rng, rate, confirmed, payload, idx, k), f"class:selfref:{kind}:{name}"))
+                idx += 1
+
+            def site_cases(kind, n, sites, m):
+                for name in chosen(kind, m):
+                    w, fn = convs[name]
+                    payload, done = selfref_payload(rng, n, per, sites, fn, w)
+                    if name == "lib32-onair":
+                        # the receiver learns the block count from the header (k = 0) or from a preamble (k >= 1)
+                        add(kind, name, payload, done, k=0)
+                        payload, done = selfref_payload(rng, n, per, sites, fn, w)
+                        add(kind, name, payload, done, k=rng.choice((1, 1, 2, 2, 3, 3, 3, 16)))
+                    else:
+                        add(kind, name, payload, done)
+
+            for nb in blocks:
+                total = (nb - 1) * per + last
+                inner = [(i + 1) * per for i in range(nb - 1)]
+                # pad classes: none, fewer than / exactly / more than the four octets of a CRC-32, the maximum
+                pads = [p for p in sorted({0, 1, 3, 4, 5, per - 1} if thorough or nb < 3 else {0, 1, 4, per - 1}) if total - p >= 0 and (nb == 1 or p < per)]
+                # --- the payload ends with a checksum of its head; with / without pad octets after it
+                for pad in pads:
+                    site_cases("payload-end", total - pad, [total - pad], nsec)
+                # --- a non-last block ends with a checksum of everything before it
+                for b in inner:
+                    site_cases("block-end", total - rng.choice(pads), [b], 2 * nsec)
+                # --- every block end and the payload end at once (each checksum covers the earlier ones)
+                n = total - rng.choice(pads)
+                site_cases("every-boundary", n, inner + [n], nsec)
+                # --- near misses: the field one octet early / late
+                for shift in (-1, 1):
+                    for name in chosen("shifted", 0 if shift == 1 else nsec):
+                        w, fn = convs[name]
+                        n = total - rng.choice(pads)
+                        payload, done = selfref_payload(rng, n, per, [rng.choice(inner + [n])], fn, w, shift=shift)
+                        add("shifted", name, payload, done)
+            # --- the checksum first, then what it covers (a header in front of its data)
+            for nb in (1, 3):
+                total = (nb - 1) * per + last
+                for name in chosen("checksum-first", 2 * nsec):
+                    w, fn = convs[name]
+                    rest = rbytes(rng, max(0, total - w - rng.choice((0, 1, 5))))
+                    add("checksum-first", name, fn(rest, rest[:per]) + rest, [w])
+            # --- payloads that describe themselves: length / block count / pad count octets, IPv4 + UDP headers whose
+            # length fields are true, point at a block end, or stop short of the pad octets
+            for nb in (2, 4):
+                total = (nb - 1) * per + last
+                pad = rng.choice((0, 1, 5, per - 1))
+                n = total - pad
+                body = bytearray(rbytes(rng, n))
+                variants = {
+                    "length-be16-first": n.to_bytes(2, "big") + bytes(body[2:]),
+                    "length-le16-first": n.to_bytes(2, "little") + bytes(body[2:]),
+                    "length-of-rest-first": bytes([(n - 1) & 0xFF]) + bytes(body[1:]),
+                    "blocks-first": bytes([nb]) + bytes(body[1:]),
+                    "pad-count-last": bytes(body[:-1]) + bytes([pad]),
+                    "pad-count-repeated-last (PKCS-like)": bytes(body[:-max(1, pad)]) + bytes([pad]) * max(1, pad),
+                    "length-last": bytes(body[:-1]) + bytes([n & 0xFF]),
+                    "length-to-first-block-end-first": per.to_bytes(2, "big") + bytes(body[2:]),
+                }
+                if n >= 28:
+                    variants["ipv4-udp:true-length"] = ipv4_udp(rng, n)
+                    variants["ipv4-udp:length-at-block-end"] = ipv4_udp(rng, n, claimed=(nb - 1) * per)
+                    variants["ipv4-udp:length-short"] = ipv4_udp(rng, n, claimed=n - rng.randrange(1, 8))
+                    variants["ipv4-udp:length-with-pad"] = ipv4_udp(rng, n, claimed=total)
+                for label, payload in variants.items():
+                    c = small_case(rng, rate, confirmed, payload[:n], idx)
+                    c["sap"] = 4 if label.startswith("ipv4") or idx % 2 else 3
+                    out.append((f"self-describing:{label}", c, f"class:self-describing:{label.split(' (')[0]}"))
+                    idx += 1
+            # --- one block of the payload is all zero / all ones / a copy of its predecessor (first, middle, last position)
+            nb = 4
+            total = (nb - 1) * per + last
+            for which in (0, 2, 3):
+                lo, hi = which * per, min(total, which * per + per)
+                for label, fill in (("zero", 0), ("ones", 0xFF), ("repeat", None)):
+                    if fill is None and which == 0:
+                        continue
+                    body = bytearray(rbytes(rng, total - (rng.choice((0, 1, 3)) if which < 3 else 0)))
+                    if fill is None:
+                        body[lo:hi] = body[lo - per:lo - per + (hi - lo)]
+                    else:
+                        body[lo:hi] = bytes([fill]) * (len(body[lo:hi]))
+                    out.append((f"block-content:{label}:block{which}of4", small_case(rng, rate, confirmed, bytes(body), idx), f"class:block-content:{label}"))
+                    idx += 1
+            # --- head ends in zero octets (indistinguishable from pad) / payload is only a checksum
+            for name in PRIMARY:
+                w, fn = convs[name]
+                for z in (1, per) if name == "lib32-onair" else (4, last):
+                    head = rbytes(rng, rng.randrange(0, 2 * per)) + bytes(z)
+                    add("zero-tail-then-crc", name, head + fn(head, b""), [len(head) + w])
+                    tail = rbytes(rng, rng.randrange(1, per))
+                    add("zero-tail-then-crc-then-more", name, head + fn(head, b"") + tail, [len(head) + w])
+            # --- sentinel values of the transmission's own CRC-32 (over payload + pad octets)
+            for nb in (1, 2, 4) if thorough else (1, 3):
+                total = (nb - 1) * per + last
+                for pad, target in ((0, 0), (0, 0xFFFFFFFF), (1, 0), (3, 1), (per - 1 if nb > 1 else 2, 0), (0, None), (2, None)):
+                    n = total - pad
+                    if n < 8:
+                        continue
+                    p = (n - 4) & ~1  # the four solved octets start at an even offset (see solve_tail32)
+                    head, tail = rbytes(rng, p), rbytes(rng, n - p - 4)
+                    tgt = int.from_bytes(head[:4], "little") if target is None else target
+                    x = solve_tail32(head, tail + bytes(pad), tgt)
+                    if x is None:
+                        ctx.count("class:crc32-target:unsolvable")
+                        continue
+                    label = "own-first-octets" if target is None else f"{target:#x}"
+                    out.append((f"crc32-target:{label}", small_case(rng, rate, confirmed, head + x + tail, idx), f"class:crc32-target:{label}"))
+                    idx += 1
+            # --- sentinel values of a block's CRC-9 (0 = "not given" in the block constructors)
+            if confirmed:
+                for target in (0, 0x1FF):
+                    for nb, which in ((1, 0), (3, 0), (3, 2)):
+                        payload = crc9_target_payload(rng, rate, nb, which, target)
+                        if payload is not None:
+                            out.append((f"crc9-target:{target:#x}:block{which}of{nb}", small_case(rng, rate, confirmed, payload, idx), f"class:crc9-target:{target:#x}"))
+                            idx += 1
+    return out
+
+
+# ------------------------------------------------------------------------------------------------
+# child interpreter with assert statements stripped (python -O)
+# ------------------------------------------------------------------------------------------------
+CHILD = "import sys; sys.path.insert(0, sys.argv[1]); from props import c07; c07.child_main()"
+
+
+def child_main():
+    real = sys.stdout
+    cases = json.load(sys.stdin)
+    try:
+        assert False, "assert statements are executed"
+        stripped = True
+    except AssertionError:
+        stripped = False
+    res = {"optimize": sys.flags.optimize, "asserts_stripped": stripped, "results": []}
+    for case in cases:
+        c = dict(case)
+        c["ambient"] = None if c.get("ambient") == "python-O" else c.get("ambient")
+        try:
+            lines, outs, fails, info = run_case(c)
+        except BaseException as e:  # noqa
+            fails, info = [("harness", f"run_case raised {impl_error(e)}: {str(e)[:200]}", None, None)], {"blocks": None}
+        res["results"].append({"fails": fails, "blocks": info.get("blocks")})
+    sys.stdout = real
+    json.dump(res, real)
+    real.flush()
+
+
+class Child:
+    """`python -O` running the oracle over a fixed sample, concurrently with the main run"""
+
+    def __init__(self, cases):
+        self.cases = cases
+        self.out = tempfile.TemporaryFile("w+")
+        self.err = tempfile.TemporaryFile("w+")
+        harness = os.path.dirname(os.path.dirname(os.path.abspath(__file__)))
+        self.proc = subprocess.Popen([sys.executable, "-O", "-c", CHILD, harness], stdin=subprocess.PIPE, stdout=self.out, stderr=self.err, text=True)
+        try:
+            self.proc.stdin.write(json.dumps(cases))
+            self.proc.stdin.close()
+        except BaseException:  # noqa: the child died early; collect() reports it
+            pass
+
+    def collect(self, timeout=600):
+        """(result dict or None, problem text or None)"""
+        try:
+            rc = self.proc.wait(timeout=timeout)
+        except subprocess.TimeoutExpired:
+            self.proc.kill()
+            return None, "timeout"
+        if rc < 0:
+            return None, "timeout"  # killed by a signal (memory pressure, operator): not evaluated, like a timeout
+        self.out.seek(0)
+        self.err.seek(0)
+        text, err = self.out.read(), self.err.read()
+        try:
+            res = json.loads(text)
+            if len(res["results"]) != len(self.cases):
+                raise ValueError("result count")
+            return res, None
+        except BaseException:  # noqa
+            return None, f"rc={rc} " + err[-600:]
+
+
 CORPUS = [
     # 6db02eb: CRC-32 was handed to every block, every non-last confirmed block had an invalid CRC-9
     ("fixed:6db02eb confirmed 2 blocks r12", "r12", True, 11),
@@ -232,24 +875,33 @@ CORPUS = [
 def run(ctx):
     ctx.rule = (
         "corpus (confirmed transmissions of >= 2 blocks: regression of 6db02eb) first; then per (rate, mode) every payload length "
-        "0..64 plus a seeded sample up to 1500 and the boundary lengths of the 7-bit block counter (quick) / every length 0..1500 "
-        "(thorough); preamble count, colour code, time slot and observer configuration rotate through all values; payload bytes random "
-        "(20 %: zeros / 0xFF / a ramp). A case is one generated transmission sent through serialise, parse and a real Terminal; "
-        "distinct = distinct (rate, mode, k, colour code, payload). Over-long payloads (> 127 blocks) must fail cleanly when the "
-        "header is built."
+        "0..64 plus a seeded sample up to 1500 and the boundary lengths of the 7-bit block counter, the 127-block length with 0 / 1 / 16 "
+        "preambles (quick) / every length 0..1500 (thorough); preamble count, colour code, time slot and observer configuration rotate "
+        "through all values; payload bytes random (20 %: zeros / 0xFF / a ramp). Structured payload content, per (rate, mode) and block "
+        "count: the octets before the payload end (every pad count class) / before every non-last block end / before all of them at once "
+        "are a checksum of the octets before them in 21 conventions (library CRC-32 as sent on air, the same from an independent "
+        "implementation, other octet / bit orders, zlib, CRC-CCITT, CRC-9 fields, near misses: one octet early / late, one bit off); "
+        "payloads whose own CRC-32 / a block's CRC-9 is a sentinel (0, all ones, the payload's first octets; solved over GF(2)); "
+        "payloads made of what the library delivered for an earlier transmission (data + CRC-32 alone, followed by more, twice, nested, "
+        "in other rates / modes) or serialised (own header, preamble, blocks, bursts). Error-path probes (failing generator and receiver "
+        "calls before the valid ones) and ambient variants (root logger at DEBUG with a formatting handler, sys.stdout that raises, "
+        "global random reseeded before every call, a child python -O over a fixed sample) on a fixed share. A case is one generated "
+        "transmission sent through serialise, parse and a real Terminal; distinct = distinct (rate, mode, k, colour code, payload, "
+        "ambient). Over-long payloads (> 127 blocks) must fail cleanly when the header is built."
     )
     ctx.trusted_base += [
         "Lean 4.33 kernel",
         "tools/extract_tracker.py (table literals of generate_data_bursts located in its AST and evaluated; enum values, resolve() graphs and typed-parse layouts by calling the library)",
         "hand-written model of the generator arithmetic (Model/Fragment.lean) and of the receiver (Model/Tracker.lean), tied to the code by this run's correspondence",
         "per-burst channel: the abstraction of parse(serialise(b)) equals the abstraction of b — this is C01 (with C02/C10/C03); here it is checked on every generated burst by the frag.full comparison, not proved",
-        "CRC-32 and CRC-9 are abstract functions in the theorem (C05); the oracle recomputes them with the library's CRC32 / CRC9",
+        "CRC-32 and CRC-9 are abstract functions in the theorem (C05); the oracle recomputes them with the library's CRC32 / CRC9 and with an independent bitwise implementation in harness/props/c07.py",
         "IEEE-754: Python's ceil(1 + (len - last) / per) equals the integer ceiling for len < 2^50 (|q| < 2^47, each of the two roundings is off by < 2^-6, "
         "a non-integer quotient is >= 1/24 away from an integer); cross-checked on sampled lengths up to 2^50 in every run",
     ]
     ctx.assumptions += [
         "the caller supplies a header with pad_octet_count = the generator's pad count, blocks_to_follow = number of data blocks (<= 127), A bit = confirmed mode",
         "payload length < 2^50",
+        "payload is a bytes object (the generator rejects bytearray / memoryview on the unchanged tree); single-threaded use",
     ]
     c08.lib()  # import the library before any worker is forked
     rng = ctx.rng
@@ -257,8 +909,8 @@ def run(ctx):
     idx = 0
     jobs = []
 
-    def add(desc, case, sample=False):
-        jobs.append((desc, case, sample))
+    def add(desc, case, sample=False, key=None):
+        jobs.append({"desc": desc, "case": case, "sample": sample, "key": key})
 
     for desc, rate, confirmed, n in CORPUS:
         for k in (0, 1, 16):
@@ -269,6 +921,21 @@ def run(ctx):
             add(desc, case, sample=k == 1)
             idx += 1
         ctx.count("corpus")
+    # ---- structured payload content (fixed share; not multiplied by the boost beyond the sampled conventions)
+    structured = structured_cases(ctx, rng)
+    for desc, case, key in structured:
+        add(desc, case, sample=desc == "selfref:block-end:lib32-onair" and case["rate"] == "r34" and case["k"] == 0, key=key)
+    # ---- payloads derived from what the library delivered / serialised (built in the workers)
+    dsizes = (1, 2, 3, 4, 6, 9) if ctx.thorough() else (1, 2, 4)
+    for rate in RATES:
+        for confirmed in (True, False):
+            per, last = TABLE[(rate, confirmed)]
+            for nb in dsizes:
+                n = (nb - 1) * per + last - rng.choice((0, 0, 1, 5, per - 1))
+                base = small_case(rng, rate, confirmed, rbytes(rng, max(0, n)), idx, k=rng.choice((1, 2, 3)))
+                jobs.append({"desc": "derived:base", "case": base, "sample": False, "key": "class:derived:base", "derive": True, "seed": rng.getrandbits(48)})
+                idx += 1
+    # ---- lengths
     for rate in RATES:
         for confirmed in (True, False):
             per, last = TABLE[(rate, confirmed)]
@@ -285,25 +952,90 @@ def run(ctx):
             for n in lens:
                 add("sweep", make_case(rng, rate, confirmed, n, idx), sample=(n == 33 and rate == "r34"))
                 idx += 1
+            # the largest packet a header can announce (127 blocks), opened by the header itself / by one / by 16 preambles
+            for n, k in ((edge, 0), (edge, 1), (edge - per + 1, 16), (edge - per + 1, 0)) if edge <= 1500 else ((edge, (idx // 2) % 2),):
+                case = make_case(rng, rate, confirmed, n, idx)
+                case["k"] = k
+                add("127 blocks", case, key="class:127-blocks")
+                idx += 1
     # extra random (k, cc, payload) combinations at small lengths
     for _ in range(ctx.budget(200, 2000)):
         rate, confirmed = rng.choice(RATES), bool(rng.randrange(2))
         add("random", make_case(rng, rate, confirmed, rng.choice([0, 1, 5, 6, 7, 12, 13, 30, rng.randrange(200)]), rng.randrange(10 ** 6)))
-    for (desc, case, sample), res in zip(jobs, c08.pmap(job_run, [j[1] for j in jobs], c08.workers())):
-        lines, outs, fails, info = res
-        ctx.case((case["rate"], case["confirmed"], case["k"], case["cc"], case["payload"]), nontrivial=True,
-                 sample={"case": desc, "rate": case["rate"], "confirmed": case["confirmed"], "k": case["k"], "len": len(case["payload"]) // 2,
-                         "blocks": info["blocks"], "events": outs[-2].split(" ", 4)[-1][:160] if len(outs) > 3 else outs[-1:]} if sample else None)
-        ctx.count(f"{case['rate']}:{'confirmed' if case['confirmed'] else 'unconfirmed'}")
-        ctx.count("overlong" if info["overlong"] else f"k:{case['k']}")
-        if info["blocks"]:
-            ctx.count("blocks:" + ("1" if info["blocks"] == 1 else "2" if info["blocks"] == 2 else "3-9" if info["blocks"] < 10 else "10-127" if info["blocks"] <= 127 else ">127"))
-        for kind, what, exp, act in fails:
-            ctx.fail(kind, case, f"{what} [{desc}]", expected=exp, actual=act)
-        pairs.extend(zip(lines, outs))
+    # ---- error-path probes, the callee's defaults, ambient variants: copies of a fixed share of the small cases
+    small = [j for j in jobs if not j.get("derive") and len(j["case"]["payload"]) <= 2 * 160]
+    step = 5 if ctx.thorough() else 16
+    extra = []
+    for i, j in enumerate(small[::step]):
+        mode = AMBIENTS[i % len(AMBIENTS)]
+        c = dict(j["case"], ambient=mode)
+        if mode.startswith("stdout") or mode == "all":
+            c["sap"] = 3  # the receiver prints its UDP/IPv4 diagnostic for SAP 3 and >= 5 octets
+        extra.append({"desc": j["desc"] + f" [ambient {mode}]", "case": c, "sample": i == 4, "key": f"class:ambient:{mode}"})
+    for i, j in enumerate(small[4::step + 7]):
+        c = dict(j["case"], provoke=True)
+        extra.append({"desc": j["desc"] + " [after failing calls]", "case": c, "sample": i == 0, "key": "class:error-path-first"})
+    for i, j in enumerate(small[2::3 * step]):
+        if i % 2:
+            c = dict(j["case"], k=3, cc=1, defaults=True)
+            extra.append({"desc": j["desc"] + " [defaults]", "case": c, "sample": False, "key": "class:callee-defaults"})
+        else:
+            c = dict(j["case"], header_from_bits=True)
+            extra.append({"desc": j["desc"] + " [parsed header]", "case": c, "sample": False, "key": "class:header-parsed-by-library"})
+    jobs += extra
+    # ---- one child python -O over a fixed sample (first case: a failing call is the first call in that process)
+    pick = [j for j in jobs if not j.get("derive") and len(j["case"]["payload"]) <= 2 * 120]
+    per_child = 800 if ctx.thorough() else 240
+    sel = [j for j in pick if j["desc"].startswith(("fixed:", "selfref:block-end:lib32", "selfref:payload-end:lib32", "selfref:every"))][:per_child // 2]
+    chosen_ids = {id(j) for j in sel}
+    rest = [j for j in pick if id(j) not in chosen_ids]
+    sel += rest[:: max(1, len(rest) // (per_child - len(sel)))][: per_child - len(sel)]
+    child_cases = [dict(j["case"], ambient="python-O") for j in sel]
+    if child_cases:
+        child_cases[0]["provoke"] = True
+    child = None
+    try:
+        child = Child(child_cases)
+    except BaseException as e:  # noqa
+        ctx.notes.append(f"python -O child could not be started: {impl_error(e)}")
+
+    for job, results in zip(jobs, c08.pmap(job_run, jobs, c08.workers())):
+        for n_res, (desc, case, lines, outs, fails, info) in enumerate(results):
+            sample = job["sample"] and n_res == 0
+            ctx.case((case["rate"], case["confirmed"], case["k"], case["cc"], case["payload"], case.get("ambient"), bool(case.get("provoke")), bool(case.get("defaults")), bool(case.get("header_from_bits"))),
+                     nontrivial=True,
+                     sample={"case": desc, "rate": case["rate"], "confirmed": case["confirmed"], "k": case["k"], "len": len(case["payload"]) // 2,
+                             "blocks": info["blocks"], "events": outs[-2].split(" ", 4)[-1][:160] if len(outs) > 3 else outs[-1:]} if sample else None)
+            ctx.count(f"{case['rate']}:{'confirmed' if case['confirmed'] else 'unconfirmed'}")
+            ctx.count("overlong" if info["overlong"] else f"k:{case['k']}")
+            if job.get("derive"):
+                ctx.count("class:" + desc.split(" (")[0])
+            elif job.get("key"):
+                ctx.count(job["key"])
+            if info["blocks"]:
+                ctx.count("blocks:" + ("1" if info["blocks"] == 1 else "2" if info["blocks"] == 2 else "3-9" if info["blocks"] < 10 else "10-127" if info["blocks"] <= 127 else ">127"))
+            for kind, what, exp, act in fails:
+                ctx.fail(kind, case, f"{what} [{desc}]", expected=exp, actual=act)
+            pairs.extend(zip(lines, outs))
         if len(pairs) > 30000:
             flush(ctx, pairs)
     flush(ctx, pairs)
+    # ---- the child's verdicts
+    if child is not None:
+        res, problem = child.collect()
+        if res is None:
+            if problem == "timeout":
+                ctx.notes.append("python -O child did not finish in time or was killed (not evaluated)")
+                ctx.count("class:python-O:timeout")
+            else:
+                # the interpreter with asserts stripped cannot even run the sample: the receiver path fails there
+                ctx.fail("python-O", {"ambient": "python-O", "cases": len(child_cases)}, "the child `python -O` running the oracle on a sample did not produce results", expected="results", actual=problem)
+        else:
+            ctx.count("class:ambient:python-O" + ("" if res.get("asserts_stripped") else ":asserts-not-stripped"), len(child_cases))
+            for case, r in zip(child_cases, res["results"]):
+                ctx.case((case["rate"], case["confirmed"], case["k"], case["cc"], case["payload"], "python-O"), nontrivial=True)
+                for kind, what, exp, act in r["fails"]:
+                    ctx.fail(kind, case, f"{what} [python -O]", expected=exp, actual=act)
     # ---- arithmetic only: the model's block / pad count against Python's float formula, far beyond 1500
     arith = []
     for rate in RATES:
@@ -337,6 +1069,14 @@ def replay(obj):
     print(json.dumps(obj.get("type")), f.get("what"))
     if "payload" not in case:
         print(json.dumps(obj, indent=1)[:4000])
+        return 1
+    if case.get("ambient") == "python-O":
+        res, problem = Child([case]).collect()
+        print("child python -O:", problem or json.dumps(res)[:3000])
+        if res is not None:
+            for kind, what, exp, act in res["results"][0]["fails"]:
+                print(f"PROPERTY FAILS under python -O [{kind}] {what}: expected {exp} actual {act}")
+            return 1 if res["results"][0]["fails"] else 0
         return 1
     lines, outs, fails, info = run_case(case)
     model = None
